@@ -470,6 +470,78 @@ def run_case(cb, agg, fact, weights, ignore, xdt, st, formats=FORMATS, fact_form
                       {"case": case}, c2)
 
 
+def memory_forms(arr):
+    """The same values in other memory forms / container types (arr: C-contiguous float64, 1-D or 2-D)."""
+    yield "python-list", arr.tolist()
+    ro = arr.copy()
+    ro.flags.writeable = False
+    yield "read-only", ro
+    if arr.ndim == 2:
+        yield "fortran-ordered", np.asfortranarray(arr)
+        wide = np.full((arr.shape[0], arr.shape[1] + 2), 77.0)
+        wide[:, 1:-1] = arr
+        yield "non-contiguous-view", wide[:, 1:-1]
+    else:
+        w2 = np.full(2 * len(arr), 77.0)
+        w2[::2] = arr
+        yield "strided-view", w2[::2]
+    yield "negative-stride-view", np.ascontiguousarray(arr[::-1])[::-1]
+    if not np.isnan(arr).any() and np.all(arr == np.round(arr)):
+        yield "int32", arr.astype(np.int32)
+        yield "float32", arr.astype(np.float32)
+
+
+def check_forms(cb, st, jobno):
+    """C03 quantifies over fact and weight ARRAYS: the same values handed over as a list, read-only, Fortran-ordered, as a
+    strided / negative-stride view or in a narrower dtype must give the same cells on both cube types (reference: the
+    C-contiguous float64 form, itself judged by the contracts), and must leave the caller's object as it was."""
+    N = cb.N
+    if N == 0:
+        return
+    base1 = np.array([(1.5, NaN, 2.0, 0.0, 4.25, NaN, 3.0)[(i + jobno) % 7] for i in range(N)])
+    base2 = np.column_stack([base1, np.array([(2.0, 1.0, NaN, 5.0)[(i + jobno) % 4] for i in range(N)])])
+    ints = np.array([float((3 * i + jobno) % 5) for i in range(N)])
+    wts = np.array([(1.0, 0.7, 0.0, 2.0, 0.1)[(i + 2 * jobno) % 5] for i in range(N)])
+    wbool = np.array([float((i + jobno) % 3 != 0) for i in range(N)])
+    cubes = {"ccube": cb.ccube(), "xcube": cb.xcube("int64")}
+    for kind, cube in cubes.items():
+        if cube in (None, FAILED):
+            continue
+        for agg in FACT_AGGS:
+            for pol in (False, True):
+                for fact, weights in ((base1, None), (base2, wts), (ints, wts), (base1, wbool)):
+                    ref = _try(lambda: getattr(cube, agg)(fact.copy(), None if weights is None else weights.copy(), pol, NaN))
+                    if ref is FAILED:
+                        continue
+                    ro = obs(ref, "nan")
+                    tol = S.tolerance(fact, weights, agg, N)
+                    variants = [("fact", n, f, weights) for n, f in memory_forms(fact)]
+                    if weights is not None:
+                        variants += [("weights", n, fact, w) for n, w in memory_forms(weights)]
+                        if set(np.unique(weights).tolist()) <= {0.0, 1.0}:
+                            variants.append(("weights", "bool", fact, weights.astype(bool)))
+                    for which, name, f, w in variants:
+                        keep = (f, w)
+                        before = (np.array(f, dtype=float).copy(), None if w is None else np.array(w, dtype=float).copy())
+                        ex = {"case": dict(cb.desc, agg=agg, ignore_missing=pol, cube=kind, argument=which, form=name,
+                                           arr=CA.enc_var(fact), weights=CA.enc_var(weights))}
+                        cls = dict(cb.cls, cube=kind, agg=agg, argument=which, form=name)
+                        out = _try(lambda: getattr(cube, agg)(f, w, pol, NaN))
+                        ob = "%ss.%s.%s/same-cells-for-the-same-values-in-another-memory-form" % (kind, kind, agg)
+                        if out is FAILED:
+                            MON.check(ob, "raised for the %s given as %s" % (which, name), None, ex, cls)
+                            continue
+                        o = obs(out, "nan")
+                        with np.errstate(invalid="ignore"):
+                            same = o is not None and o[0].shape == ro[0].shape and bool(np.array_equal(o[1], ro[1])) and bool(np.all(np.abs(o[0][~ro[1]] - ro[0][~ro[1]]) <= tol))
+                        MON.check(ob, bool(same), lambda: "%s as %s: %r ; as C-contiguous float64: %r" % (which, name, None if o is None else o[0].tolist(), ro[0].tolist()), ex, cls)
+                        after = (np.array(keep[0], dtype=float), None if keep[1] is None else np.array(keep[1], dtype=float))
+                        unchanged = np.array_equal(after[0], before[0], equal_nan=True) and (after[1] is None or np.array_equal(after[1], before[1], equal_nan=True))
+                        MON.check(ob.replace("same-cells-for-the-same-values-in-another-memory-form", "caller-object-in-another-memory-form-unchanged"), bool(unchanged),
+                                  lambda: "the %s given as %s changed" % (which, name), ex, cls)
+                        st.call(True)
+
+
 def do_cube_A(spec, sc, st, jobno):
     fam, dense, commons, shape, N0 = spec
     st.family = fam
@@ -484,6 +556,8 @@ def do_cube_A(spec, sc, st, jobno):
         # cubes of more than 65536 cells cost seconds per call on the spec side: three design rows in the quick tier
         fact_rows, count_rows = fact_rows[::9][:2], count_rows[::5][:1]
     base = jobno * 131
+    if (fam == "M" and 10 < N <= 50 and jobno % 3 == 0) or (fam != "M" and N == 3 and jobno % 41 == 0):
+        check_forms(cb, st, jobno)
     if fam == "M" and N > 100:
         # cells of exactly 255 / 256 / 257 rows matter only when EVERY row of the cell counts: facts without a missing value,
         # one and two columns, unweighted and with all-positive weights, both policies - stated explicitly, not left to the
@@ -591,7 +665,86 @@ def many_cell_specs(thorough=False):
             yield ("M", dense, [int(e) - 1 for e in shape], tuple(shape), None)
 
 
+def big_cell_specs(thorough=False):
+    """One cell holding 65537 rows (and a second cell of one row): counters of valid / missing rows that cross 65536."""
+    n = 65537
+    yield ("M", [np.array([1] * n + [0], dtype=np.int64)], [0], (2,), None)
+    if thorough:
+        yield ("M", [np.array([1] * n + [0], dtype=np.int64)], [1], (2,), None)
+
+
+def do_big_cell(spec, sc, st, jobno):
+    """Explicit fact patterns on the 65538-row cubes: every row valid; exactly 65536 missing rows and one valid row in the
+    big cell; 65536 valid rows and one missing - unweighted and positively weighted, both policies, NaN and (0, False)."""
+    fam, dense, commons, shape, N0 = spec
+    st.family = fam
+    MON.calls["driver:cubes-" + fam] += 1
+    cb = Cubes(fam, dense, commons, shape, N0, CA.install())
+    N = cb.N
+    full = (np.arange(N, dtype=np.float64) % 11) + 0.5
+    miss_many = full.copy()
+    miss_many[:65536] = NaN           # the big cell: 65536 missing rows, then one valid row
+    miss_one = full.copy()
+    miss_one[65536] = NaN             # the big cell: 65536 valid rows and one missing
+    wpos = 0.5 + (np.arange(N) % 7) * 0.25
+    thorough = bool(sc.get("thorough"))
+    plan = [(miss_many, "nan1", None, "none"), (full, "nan1", None, "none"), (miss_one, "nan1", wpos, "array")]
+    if thorough:
+        plan += [(miss_many, "nan1", wpos, "array"), (full, "nan1", wpos, "array"), (miss_one, "nan1", None, "none"), ((full.copy(), ~np.isnan(miss_many)), "pair1", None, "none")]
+    for fact, form, weights, wform in plan:
+        for pol in (False, True):
+            for agg in FACT_AGGS:
+                run_case(cb, agg, fact, weights, pol, "int64", st, formats=FORMATS[:1] if not thorough else FORMATS[:2], fact_form=form, weight_form=wform)
+    if thorough:
+        wm = wpos.copy()
+        wm[:65536] = NaN
+        for pol in (False, True):
+            run_case(cb, "count", None, wm, pol, "int64", st, formats=FORMATS[:2], weight_form="arraynan")
+
+
+def check_object_reuse(st):
+    """An aggregate object that does not carry per-row arrays (a count, unweighted or with a scalar weight) may be handed to
+    calculate() of several cubes: on a cube of ANOTHER row count it must give what a fresh object gives."""
+    from catii import ccube, xcube, ffuncs, xfuncs
+
+    cases = []
+    for n1, n2 in ((8, 2), (3, 8), (5, 5)):
+        d1 = np.array([(i * 2) % 3 for i in range(n1)], dtype=np.int64)
+        d2 = np.array([1 + (i % 2) for i in range(n2)], dtype=np.int64)  # category 0 (the common value) has no row
+        cases.append((d1, d2))
+    for d1, d2 in cases:
+        for kind in ("ccube", "xcube"):
+            for wname, wt in (("none", None), ("scalar", 2.0)):
+                for fmt_name, fmt in FORMATS[:3] + (("plain", 0),):
+                    for pol in (False, True):
+                        def mkcube(d):
+                            return ccube([mk(d, 0)], (3,)) if kind == "ccube" else xcube([d.copy()], (3,))
+
+                        def mkf():
+                            mod = ffuncs.ffunc_count if kind == "ccube" else xfuncs.xfunc_count
+                            return mod(wt, ignore_missing=pol, return_missing_as=fmt) if wt is not None else mod(ignore_missing=pol, return_missing_as=fmt)
+                        ex = {"case": {"cube": kind, "first": d1.tolist(), "then": d2.tolist(), "common": 0, "interacting_shape": [3], "weights": wname,
+                                       "ignore_missing": pol, "return_missing_as": fmt_name}}
+                        cls = {"cube": kind, "weights": wname, "format": fmt_name, "family": "object-reuse"}
+                        ob = "%ss.%s.calculate/missing-rule-and-values-unchanged-when-the-aggregate-object-was-used-on-another-cube-before" % (kind, kind)
+                        try:
+                            f = mkf()
+                            mkcube(d1).calculate([f])
+                            got = mkcube(d2).calculate([f])[0]
+                            want = mkcube(d2).calculate([mkf()])[0]
+                        except Exception as e:  # noqa
+                            MON.check(ob, "raised %s: %s" % (type(e).__name__, e), None, ex, cls)
+                            continue
+                        a, b = obs(got, fmt_name if fmt_name != "plain" else "plain"), obs(want, fmt_name if fmt_name != "plain" else "plain")
+                        same = a is not None and b is not None and a[0].shape == b[0].shape and np.array_equal(a[0], b[0], equal_nan=True) and (
+                            (a[1] is None and b[1] is None) or np.array_equal(a[1], b[1]))
+                        MON.check(ob, bool(same), lambda: "re-used object: %r ; fresh object: %r" % (None if a is None else [x.tolist() if x is not None else None for x in a],
+                                                                                                    None if b is None else [x.tolist() if x is not None else None for x in b]), ex, cls)
+                        st.call(True)
+
+
 def jobs(sc):
+    # (new families are appended at the END: the job number seeds the fact / weight patterns of every earlier job)
     for spec in cube_specs(sc):
         yield do_cube_A, spec
     for spec in medium_specs():
@@ -600,6 +753,8 @@ def jobs(sc):
         yield do_cube_A, spec
     for spec in family_B(sc):
         yield do_cube_B, spec
+    for spec in big_cell_specs(sc.get("thorough", False)):
+        yield do_big_cell, spec
 
 
 def work(args):
@@ -616,6 +771,8 @@ def work(args):
         if j % nshards == shard:
             fn(spec, sc, st, j)
         j += 1
+    if shard == 3 % nshards:
+        check_object_reuse(st)
     CA.materialize()
     out = MON.dump()
     out.update(driver_calls=st.calls, nontrivial=st.nontrivial, samples=st.samples, jobs=j, cubes=st.cubes)
